@@ -89,6 +89,28 @@ def grammar_part(prog, R):
         fns_ = sorted(set(G.node_fn[x] for x in comp))
         R.ob("C01.2-PROGRESS-recursion", "+".join(short(x).split("::")[-1] for x in fns_), False, prog.body(fns_[0]).at,
              f"recursion cycle (context-sensitive call graph) without a guaranteed consumption on any of its call edges: {[(short(G.node_fn[x]), G.node_ctx[x]) for x in comp][:6]}")
+    # ---- C01.6 narrowing integer casts in the parser crate: indices, distances and counts are stored in narrower fields
+    # (u32 positions, u8/u16 packed fields); a value cut by `as` silently points elsewhere (a forward-parent distance
+    # stored in 16 bits makes event::process follow a wrong link on a large block).  The (from -> to) pairs in use
+    # are reviewed; a pair that is not among them needs a review.
+    W_ = {"u8": 8, "u16": 16, "u32": 32, "u64": 64, "usize": 64, "u128": 128, "i8": 8, "i16": 16, "i32": 32, "i64": 64, "isize": 64, "bool": 1, "char": 32}
+    REVIEWED_NARROWING = {("lexed_str", "usize", "u32"): "text offsets and token indices: bounded by the input size (< 2^32, the stated bound)",
+                          ("output", "usize", "u32"): "index into the error list", ("parser", "usize", "u32"): "event index (one event per token or node: bounded by the input size)",
+                          ("output", "u32", "u16"): "Output::iter decodes a 16-bit field it encoded itself (mask before the cast)",
+                          ("output", "u32", "u8"): "Output::iter decodes an 8-bit field it encoded itself (mask before the cast)"}
+    ncast = 0
+    for k_, b_ in sorted(prog.bodies.items()):
+        if not k_.startswith("oq3_parser::"):
+            continue
+        for bi_, si_, st_ in b_.stmts_with_pos():
+            if st_["k"] == "assign" and st_["rv"]["k"] == "cast" and st_["rv"].get("kind") == "IntToInt":
+                fr_, to_ = str(st_["rv"].get("from", "?")), str(st_["rv"]["to"])
+                if fr_ in W_ and to_ in W_ and W_[to_] < W_[fr_]:
+                    ncast += 1
+                    why_ = REVIEWED_NARROWING.get((k_.split("::")[1], fr_, to_))
+                    R.ob("C01.6-narrowing-casts", f"{short(k_)}:{fr_}->{to_}", why_ is not None, st_["at"], f"reviewed: {why_}" if why_ else
+                         f"{short(k_)} narrows a {fr_} to {to_} with `as`: no cast of this kind was reviewed in this module of the parser crate; a distance or index that does not fit wraps silently (large inputs)")
+    R.floor("narrowing casts in the parser crate", ncast, 4)
     # ---- C01.2 the "parser seems stuck" counter measures look-aheads since the last consumption: every consumption
     # (Parser::do_bump, the only writer of pos) resets it, so that the limit bounds the work between two tokens and
     # not the length of the input (the reviewed reason of the assertion in Parser::nth rests on this)
